@@ -2,6 +2,7 @@ package c05
 
 import (
 	"bytes"
+	"encoding/json"
 	"fmt"
 	"net/http"
 	"strings"
@@ -27,13 +28,13 @@ type fcase struct {
 	Bal    string `json:"balancer"`
 }
 
-var modes = []string{"zero-healthy", "unknown-model", "all-refuse", "all-reset", "all-eof", "all-garbage", "backend-400", "backend-404", "backend-429", "backend-500", "backend-503", "backend-500-nonjson", "backend-500-large", "backend-400-huge-chunked", "malformed-200-json", "empty-200", "200-empty-object", "200-no-choices", "200-choice-without-message", "200-error-member-only"}
+var modes = []string{"zero-healthy", "unknown-model", "all-refuse", "all-reset", "all-eof", "all-garbage", "backend-400", "backend-404", "backend-429", "backend-500", "backend-503", "backend-500-nonjson", "backend-500-ansi", "unknown-model-ctrl", "backend-500-large", "backend-400-huge-chunked", "malformed-200-json", "empty-200", "200-empty-object", "200-no-choices", "200-choice-without-message", "200-error-member-only"}
 var routes = []string{"proxy", "provider", "passthrough", "translated"}
 
 func TestC05(t *testing.T) {
 	world.Quiet()
 	run := rep.New("C05", "fault_enumeration",
-		"every failure mode (no healthy endpoint, unknown model, every candidate refusing / resetting / closing without answer / answering garbage, backend 400/404/429/500/503 with JSON and non-JSON error bodies of 60 B, 21 KB and 300 KB (chunked), malformed or empty 200 bodies) x route family (proxy, provider, Anthropic passthrough, Anthropic translated) x stream flag x engine (thorough: x balancer x 20 repetitions, because the streaming pipe hand-off is schedule-dependent); proxy timeouts are 30 s so that 'waited for a timeout' is visible; oracle: non-2xx with a non-empty error body, completion within 10 s (healthy: milliseconds), Anthropic error object with Content-Type application/json for errors Olla produces on the Anthropic routes (streaming too, no message_start..message_stop sequence), backend 4xx/5xx status unchanged. distinct = distinct grid cell")
+		"every failure mode (no healthy endpoint, unknown model, every candidate refusing / resetting / closing without answer / answering garbage, backend 400/404/429/500/503 with JSON and non-JSON error bodies of 60 B, 21 KB and 300 KB (chunked) and with control characters / ANSI escapes in the message, an unknown model whose name contains control characters, malformed or empty 200 bodies) x route family (proxy, provider, Anthropic passthrough, Anthropic translated) x stream flag x engine (thorough: x balancer x 20 repetitions, because the streaming pipe hand-off is schedule-dependent); proxy timeouts are 30 s so that 'waited for a timeout' is visible; oracle: non-2xx with a non-empty error body, completion within 10 s (healthy: milliseconds), Anthropic error object with Content-Type application/json for errors Olla produces on the Anthropic routes (streaming too, no message_start..message_stop sequence), backend 4xx/5xx status unchanged. distinct = distinct grid cell")
 	run.Assume("the 10 s completion bound is one third of the smallest configured timeout (30 s) and ~1000x the healthy value; a machine slow enough to miss it would also trip the 30 s timeouts")
 	engines := []string{"sherpa", "olla"}
 	bals := []string{"priority"}
@@ -133,6 +134,8 @@ func oneCase(run *rep.Run, w *world.World, hc *http.Client, bA, bB *backend.Std,
 		w.ForceHealth()
 	case c.Mode == "unknown-model":
 		model = "no-such-model"
+	case c.Mode == "unknown-model-ctrl": // the name ends up in Olla's error message
+		model = "no\x07such\x7fmodel\x1b[0m\u00e9\U000e0001"
 	case c.Mode == "all-refuse":
 		target.Refuse(true)
 	case c.Mode == "all-reset":
@@ -149,6 +152,10 @@ func oneCase(run *rep.Run, w *world.World, hc *http.Client, bA, bB *backend.Std,
 			body, ct = []byte("<html>Internal Server Error</html>"), "text/html"
 		}
 		chunked := false
+		if strings.HasSuffix(c.Mode, "-ansi") { // a coloured traceback in the backend's error message
+			msg, _ := json.Marshal("backend says 500 \x1b[31mTraceback\x1b[0m \x07 \x7f \x00 caf\u00e9 \U000e0001")
+			body = []byte(`{"error":{"message":` + string(msg) + `,"type":"server_error"}}`)
+		}
 		switch {
 		case strings.HasSuffix(c.Mode, "-large"): // beyond any small read buffer
 			body = []byte(fmt.Sprintf(`{"error":{"message":"backend says %d %s","type":"backend_error"}}`, wantStatus, strings.Repeat("detail ", 3000)))
@@ -181,16 +188,18 @@ func oneCase(run *rep.Run, w *world.World, hc *http.Client, bA, bB *backend.Std,
 		})
 	}
 	var path, body string
+	mj, _ := json.Marshal(model)
+	model = string(mj[1 : len(mj)-1]) // JSON-escaped, placed between quotes below
 	switch c.Route {
 	case "proxy":
 		path = "/olla/proxy/v1/chat/completions"
-		body = fmt.Sprintf(`{"model":%q,"stream":%v,"messages":[{"role":"user","content":"%s"}]}`, model, c.Stream, nonce)
+		body = fmt.Sprintf(`{"model":"%s","stream":%v,"messages":[{"role":"user","content":"%s"}]}`, model, c.Stream, nonce)
 	case "provider":
 		path = "/olla/ollama/v1/chat/completions"
-		body = fmt.Sprintf(`{"model":%q,"stream":%v,"messages":[{"role":"user","content":"%s"}]}`, model, c.Stream, nonce)
+		body = fmt.Sprintf(`{"model":"%s","stream":%v,"messages":[{"role":"user","content":"%s"}]}`, model, c.Stream, nonce)
 	default:
 		path = "/olla/anthropic/v1/messages"
-		body = fmt.Sprintf(`{"model":%q,"max_tokens":16,"stream":%v,"messages":[{"role":"user","content":"%s"}]}`, model, c.Stream, nonce)
+		body = fmt.Sprintf(`{"model":"%s","max_tokens":16,"stream":%v,"messages":[{"role":"user","content":"%s"}]}`, model, c.Stream, nonce)
 	}
 	req, _ := http.NewRequest("POST", w.Base+path, bytes.NewReader([]byte(body)))
 	req.Header.Set("Content-Type", "application/json")
